@@ -184,6 +184,16 @@ CLAIMS = {
         "note": "NOT decided: that the recon output is the minimiser (inherits C14 routing and solver convergence). Restricted to tseg=None, comm=None, transp_nufft=False (the property's quantifier); "
                 "that batching drops tseg/transp_nufft is reported as INFO.",
     },
+    "C17": {
+        "engine": "E3 value numbering (one symbolic loop iteration)",
+        "category": "other",
+        "technique": "static analysis: canonical-term comparison of EspiritCalib.__init__ (calibration matrix, SVD truncation, Gram matrices, iterate, per-voxel norm, PowerMethod wiring) and _output with the documented construction; algebraic identity z conj(z/|z|) = |z| in the term normal form",
+        "text": "PARTIAL. Decides that the power iteration normalises per voxel by sqrt(sum |x|^2) over axis -2, which is the coil axis of the iterate ones(ksp.shape[::-1]+(1,)), that this norm is the "
+                "one PowerMethod divides by (C15/T5), that _output rotates every voxel by conj(m0/|m0|) - making coil 0 equal |m0|, real and non-negative, by an identity proved in the term algebra - and "
+                "multiplies by the strict mask max_eig > crop, and that Gram matrices, calibration matrix and SVD truncation are built as documented. Hence unit-norm-or-zero and the phase reference hold for every input after at least one update.",
+        "design_ref": "DESIGN.md section 4 C17",
+        "note": "NOT decided: eigenvalues within [0,1], agreement with the true maps in the interior (numerical), conditioning of the calibration matrix.",
+    },
 }
 
 NOT_APPLICABLE = {p: PENDING for p in ["C%02d" % i for i in range(1, 21)]}
